@@ -63,6 +63,7 @@ type Logical struct {
 	OB  *bool            `parquet:"ob"`
 	OF  *float32         `parquet:"of"`
 	OFL *[16]byte        `parquet:"ofl"`
+	OTS time.Time        `parquet:"ots,optional,timestamp(microsecond)"` // zero time = null, in runs
 }
 
 type MapT struct {
@@ -195,6 +196,10 @@ func genLogical(r *tape.Rng, id int64, p Profile) Logical {
 		var u [16]byte
 		Fixed(r, p, u[:])
 		l.OFL = &u
+	}
+	// present in runs and absent in runs (the id decides, so neighbours agree)
+	if (id/int64(1+r.Intn(2)))%3 == 0 {
+		l.OTS = time.UnixMicro(int64(r.Uint64() % (1 << 40))).UTC()
 	}
 	return l
 }
@@ -355,7 +360,10 @@ func (g *genericWriter[T]) Write(d Data, lo, hi int) (int, error) {
 		return g.filter.WriteRows(dd.rows[lo:hi])
 	}
 	if g.rows {
-		return g.w.WriteRows(cloneRows(dd.rows[lo:hi]))
+		rows := cloneRows(dd.rows[lo:hi])
+		n, err := g.w.WriteRows(rows)
+		Scribble(rows) // ours: the writer must have copied what it needs
+		return n, err
 	}
 	return g.w.Write(dd.vals[lo:hi])
 }
@@ -586,6 +594,14 @@ func ShapeByName(name string) Shape {
 	}
 	if name == "keyed" {
 		return ShapeKeyed
+	}
+	if isDynName(name) {
+		return dynByName(name)
+	}
+	for _, s := range StaticGenShapes {
+		if s.Name() == name {
+			return s
+		}
 	}
 	panic("unknown shape " + name)
 }
